@@ -15,6 +15,8 @@ from harness import common
 from harness.common import SX_ERR
 
 warnings.simplefilter("ignore")
+import os
+os.environ["PYTHONWARNINGS"] = "ignore"
 
 VERBS = ("should", "should_only", "should_not")
 COLLISION_FREE = ["m0", "m1", "m2", "m3", "m4", "m5", "m6", "m7", "m8", "m9"]
